@@ -741,14 +741,14 @@ fn sourced_expr_list(input: Span) -> IResult<Span, Vec<(String, Expr)>> {
 
 fn sort_mode(input: Span) -> IResult<Span, SortMode> {
     alt((
-        alt((tag("ascending"), tag("asc"))).map(|_| SortMode::Ascending),
-        alt((tag("descending"), tag("desc"), tag("dsc"))).map(|_| SortMode::Descending),
+        alt((kw("ascending"), kw("asc"))).map(|_| SortMode::Ascending),
+        alt((kw("descending"), kw("desc"), kw("dsc"))).map(|_| SortMode::Descending),
     ))(input)
 }
 
 fn sort(input: Span) -> IResult<Span, Operator> {
     tuple((
-        tag("sort").precedes(
+        kw("sort").precedes(
             opt(tag("by")
                 .delimited_by(multispace1)
                 .precedes(sourced_expr_list))
@@ -820,6 +820,13 @@ fn parse_search(input: Span) -> IResult<Span, Search> {
     many_till(high_filter.delimited_by(multispace0), end_of_query)
         .map(|(s, _)| Search::And(s.into_iter().flatten().collect()))
         .parse(input)
+}
+
+/// A keyword: `word` not directly followed by an identifier character, so that an identifier
+/// which merely starts with a keyword (`counter`, `max_latency`, `trueish`, `onlyx`) is not taken
+/// for the keyword plus leftover text.
+fn kw<'a>(word: &'static str) -> impl Clone + Fn(Span<'a>) -> IResult<Span<'a>, Span<'a>> {
+    move |input: Span<'a>| tag(word).terminated(not(satisfy(is_ident))).parse(input)
 }
 
 fn is_ident(c: char) -> bool {
@@ -930,10 +937,10 @@ fn escaped_ident(input: Span) -> IResult<Span, String> {
 fn atomic(input: Span) -> IResult<Span, Expr> {
     let num = digit1.map(|s: Span| data::Value::from_string(*s.fragment()));
     let bool_lit = alt((
-        tag("true").map(|_| data::Value::Bool(true)),
-        tag("false").map(|_| data::Value::Bool(false)),
+        kw("true").map(|_| data::Value::Bool(true)),
+        kw("false").map(|_| data::Value::Bool(false)),
     ));
-    let null = tag("null").map(|_| data::Value::None);
+    let null = kw("null").map(|_| data::Value::None);
     let quoted_string_value = quoted_string.map(data::Value::Str);
     let duration_value = duration.map(data::Value::Duration);
     let value = alt((quoted_string_value, duration_value, num, bool_lit, null)).map(Expr::Value);
@@ -1080,7 +1087,7 @@ fn logical_and(input: Span) -> IResult<Span, Expr> {
     let retval = fold_many0(
         alt((
             pair(
-                multispace1.precedes(with_pos(tag("and"))),
+                multispace1.precedes(with_pos(kw("and"))),
                 opt(multispace1.precedes(cmp_expr)),
             ),
             pair(with_pos(tag("&&").delimited_by(multispace0)), opt(cmp_expr)),
@@ -1116,7 +1123,7 @@ fn logical_or(input: Span) -> IResult<Span, Expr> {
     let retval = fold_many0(
         alt((
             pair(
-                multispace1.precedes(with_pos(tag("or"))),
+                multispace1.precedes(with_pos(kw("or"))),
                 opt(multispace1.precedes(logical_and)),
             ),
             pair(
@@ -1291,10 +1298,10 @@ fn parse(input: Span) -> IResult<Span, Positioned<InlineOperator>> {
             opt(tag("regex").precedes(multispace1)),
             with_pos(req_quoted_string),
             opt(multispace1.precedes(with_pos(pair(tag("from"), multispace1).precedes(expr)))),
-            opt(with_pos(tag("as").preceded_by(multispace1).precedes(var_list))),
+            opt(with_pos(kw("as").preceded_by(multispace1).precedes(var_list))),
             opt(multispace1.precedes(with_pos(pair(tag("from"), multispace1).precedes(expr)))),
-            opt(tag("nodrop").preceded_by(multispace1)).map(|nd| nd.is_some()),
-            opt(tag("noconvert").preceded_by(multispace1)).map(|nd| nd.is_some()),
+            opt(kw("nodrop").preceded_by(multispace1)).map(|nd| nd.is_some()),
+            opt(kw("noconvert").preceded_by(multispace1)).map(|nd| nd.is_some()),
         ))
         .map(|(_p, is_regex, s, from_col_before, user_fields_opt, from_col_after, no_drop, no_convert)| {
             let (pattern, fields) = if is_regex.is_some() {
@@ -1363,8 +1370,8 @@ fn parse(input: Span) -> IResult<Span, Positioned<InlineOperator>> {
 
 fn fields_mode(input: Span) -> IResult<Span, FieldMode> {
     alt((
-        alt((tag("+"), tag("only"), tag("include"))).map(|_| FieldMode::Only),
-        alt((tag("-"), tag("except"), tag("drop"))).map(|_| FieldMode::Except),
+        alt((tag("+"), kw("only"), kw("include"))).map(|_| FieldMode::Only),
+        alt((tag("-"), kw("except"), kw("drop"))).map(|_| FieldMode::Except),
     ))(input)
 }
 
@@ -1384,7 +1391,8 @@ fn fields(input: Span) -> IResult<Span, Positioned<InlineOperator>> {
 fn pct(input: Span) -> IResult<Span, Positioned<AggregateFunction>> {
     with_pos(
         alt((tag("pct"), tag("percentile"), tag("p")))
-            .precedes(with_pos(digit1))
+            // `p50x` is an identifier, not the 50th percentile followed by `x`
+            .precedes(with_pos(digit1.terminated(not(satisfy(is_ident)))))
             .and(req_single_arg("the value to compute the percentile of"))
             .map(|(pct_pos, column)| match pct_pos.value.parse::<f64>() {
                 Ok(pct) if pct > 0.0 && pct < 100.0 => AggregateFunction::Percentile {
@@ -1486,7 +1494,7 @@ fn parse_operators(input: Span) -> IResult<Span, Vec<Operator>> {
             .map(|input_column| InlineOperator::Logfmt { input_column }),
     );
     let split = with_pos(
-        tag("split")
+        kw("split")
             .precedes(tuple((
                 opt(single_arg("the string to split")),
                 opt(tag("on")
@@ -1505,7 +1513,7 @@ fn parse_operators(input: Span) -> IResult<Span, Vec<Operator>> {
     );
     let timeslice = with_pos(
         tuple((
-            tag("timeslice").precedes(req_single_arg("the date-time value for the log message")),
+            kw("timeslice").precedes(req_single_arg("the date-time value for the log message")),
             opt(duration.preceded_by(multispace1)),
             opt(tag("as").delimited_by(multispace1).precedes(ident)),
         ))
@@ -1521,7 +1529,7 @@ fn parse_operators(input: Span) -> IResult<Span, Vec<Operator>> {
         ),
     );
     let total = with_pos(
-        tag("total")
+        kw("total")
             .precedes(req_single_arg("the value to sum"))
             .and(
                 opt(tag("as").delimited_by(multispace1).precedes(req_ident))
@@ -1536,7 +1544,7 @@ fn parse_operators(input: Span) -> IResult<Span, Vec<Operator>> {
             }),
     );
     let wher = with_pos(
-        tag("where")
+        kw("where")
             .precedes(opt(delimited(multispace1, with_pos(expr), multispace0)))
             .terminated(expect_pipe(
                 "unrecognized option, only the condition can be specified",
@@ -1545,33 +1553,33 @@ fn parse_operators(input: Span) -> IResult<Span, Vec<Operator>> {
     );
 
     let count = with_pos(
-        tag("count")
+        kw("count")
             .precedes(opt(single_arg("the value to count")))
             .map(|condition| AggregateFunction::Count { condition }),
     );
     let count_distinct = with_pos(
-        tag("count_distinct")
+        kw("count_distinct")
             .precedes(opt(with_pos(arg_list)))
             .map(|column| AggregateFunction::CountDistinct { column }),
     );
     let min = with_pos(
-        tag("min")
+        kw("min")
             .precedes(req_single_arg("the numeric value to find the minimum of"))
             .map(|column| AggregateFunction::Min { column }),
     );
     let max = with_pos(
-        tag("max")
+        kw("max")
             .precedes(req_single_arg("the numeric value to find the maximum of"))
             .map(|column| AggregateFunction::Max { column }),
     );
     let sum = with_pos(
-        tag("sum")
+        kw("sum")
             .precedes(req_single_arg("the numeric value to find the sum of"))
             .map(|column| AggregateFunction::Sum { column }),
     );
     let avg = with_pos(
-        tag("avg")
-            .or(tag("average"))
+        kw("avg")
+            .or(kw("average"))
             .precedes(req_single_arg("the numeric value to find the average of"))
             .map(|column| AggregateFunction::Average { column }),
     );
